@@ -351,7 +351,7 @@ fn cli_case(n: usize, zod: bool, seeds: u64) -> (Vec<Violation>, u64) {
 pub fn run(tier: Tier) -> CheckResult {
     let mut res = CheckResult::new("C13", "model_checking");
     let deadline = tier_deadline(tier);
-    let max_files = if tier == Tier::Quick { 4 } else { 6 };
+    let max_files = if tier == Tier::Quick { 6 } else { 7 };
     let runs = AtomicU64::new(0);
     let schedules = AtomicU64::new(0);
     let capped = AtomicU64::new(0);
@@ -374,12 +374,13 @@ pub fn run(tier: Tier) -> CheckResult {
         }
         let project = base_project(*n, *rich).render();
         let cfg = Cfg::mode(*zod);
-        let bound = if *n <= 3 { None } else { Some(if tier == Tier::Quick { 1 } else { 2 }) };
+        let full_upto = if tier == Tier::Quick { 3 } else { 4 };
+        let bound = if *n <= full_upto { None } else { Some(if tier == Tier::Quick { 2 } else { 3 }) };
         let mut base: Option<BTreeMap<String, String>> = None;
         let mut any = false;
         let mut reported = false;
         let mut local: BTreeMap<String, u64> = BTreeMap::new();
-        let (count, complete) = explore_schedules(bound, if tier == Tier::Quick { 1500 } else { 20000 }, |s| {
+        let (count, complete) = explore_schedules(bound, if tier == Tier::Quick { 20000 } else { 400000 }, |s| {
             let r = run_lib(&project, &cfg, s);
             runs.fetch_add(1, Ordering::Relaxed);
             for cp in &r.trace {
@@ -489,7 +490,7 @@ pub fn run(tier: Tier) -> CheckResult {
         {"kind":"transform","n_files":3,"zod":false,"transform":"MoveTypes"},
         {"kind":"cli","n_files":2,"zod":true,"flags":"--verbose + visualize_deps"}
     ]));
-    res.coverage.set("rule", format!("projects of 2..{} files (file i: struct T_i depending on T_i+1 through Option and HashMap<String, Vec<..>>, enum K_i, 1-2 commands, a channel, an event); for each project and mode every iteration-order schedule at hook sites S1 (files), S4 (plain struct order), S5/S6 (topological sort): full product for <= 3 files, deviation bound {} beyond; oracle: all files byte-identical to the identity schedule's output modulo the timestamp line; identity schedule run twice (replay divergence). Transformations (comments/whitespace, helper fns, non-serde items: output identical; reorder items, move types between files, merge, split, rename files: identical multiset of parsed top-level declarations per file and, in Zod mode, still declaration-before-use). CLI seam: --verbose and visualize_deps leave the binding files identical (the latter adds exactly its two files); one process per hash seed 0..16 (quick) / 0..64 (thorough) - the preloaded getrandom shim makes every hash iteration order of the process a function of the seed - incl. reversed file order, must agree on every file incl. the dependency graphs.", max_files, if tier == Tier::Quick { 1 } else { 2 }));
+    res.coverage.set("rule", format!("projects of 2..{} files (file i: struct T_i depending on T_i+1 through Option and HashMap<String, Vec<..>>, enum K_i, 1-2 commands, a channel, an event); for each project and mode every iteration-order schedule at hook sites S1 (files), S4 (plain struct order), S5/S6 (topological sort): full product for <= 3 (thorough: 4) files, deviation bound {} beyond; oracle: all files byte-identical to the identity schedule's output modulo the timestamp line; identity schedule run twice (replay divergence). Transformations (comments/whitespace, helper fns, non-serde items: output identical; reorder items, move types between files, merge, split, rename files: identical multiset of parsed top-level declarations per file and, in Zod mode, still declaration-before-use). CLI seam: --verbose and visualize_deps leave the binding files identical (the latter adds exactly its two files); one process per hash seed 0..16 (quick) / 0..64 (thorough) - the preloaded getrandom shim makes every hash iteration order of the process a function of the seed - incl. reversed file order, must agree on every file incl. the dependency graphs.", max_files, if tier == Tier::Quick { 2 } else { 3 }));
     res.assumptions = vec!["hash iterations not behind a hook site are covered by the enumerated hash seeds of the process (a seed alphabet, deterministic and replayable, not a complete order product) and by fresh analyser instances in process".into()];
     let _ = gen::PRELUDE;
     res
